@@ -492,6 +492,14 @@ func (x *Exec) verifyContract(ct *Contract) (err error) {
 	// proof script in source order: let (forking), assert, use, generalize
 	for _, sst := range ct.script {
 		switch sst.kind {
+		case "do":
+			var next []finalState
+			for _, f := range finals {
+				for _, so := range x.evalLetFork(f.st, f.env, sst.let.expr) {
+					next = append(next, finalState{so.st, f.env})
+				}
+			}
+			finals = next
 		case "let":
 			var next []finalState
 			for _, f := range finals {
@@ -664,6 +672,7 @@ func (x *Exec) evalLetFork(st *State, env *Env, e Expr) []specOut {
 			fail("let: call of non-function")
 		}
 		if f.fn != nil {
+			args = x.packVariadic(st, args, f.fn.Signature)
 			x.coerceArgs(args, f.fn.Signature)
 		}
 		run(func() []Out { return x.callClosure(st, f, args, 1) })
@@ -677,7 +686,7 @@ done:
 		var v Value
 		if len(o.vals) == 1 {
 			v = o.vals[0]
-		} else {
+		} else if len(o.vals) > 1 {
 			v = &Tuple{el: o.vals}
 		}
 		res = append(res, specOut{o.st, v})
